@@ -155,6 +155,19 @@ def real_jax(c):
             mk = dict(name=None, xtol=1e-13, absdelta=1e-15, maxiter=10, cg_kwargs=dict(name=None, **CG_KW))
             upd, _ = ovi.nonlinearly_update_samples(smp, point_estimates=pe, minimize_kwargs=mk)
             out["geovi"] = np.array([_flat(jax.tree_util.tree_map(lambda a: a[i], upd._samples), c) for i in range(len(upd))])
+        else:
+            # genuinely non-linear model: the geoVI sample x* must solve  x − e + L_e(t(x) − t(e)) = ± metric sample
+            mk = dict(name=None, xtol=1e-13, absdelta=1e-15, maxiter=60, cg_kwargs=dict(name=None, **CG_KW))
+            upd, _ = ovi.nonlinearly_update_samples(smp, point_estimates=pe, minimize_kwargs=mk)
+            gs, mss = [], []
+            for i in range(len(upd)):
+                x = p + jax.tree_util.tree_map(lambda a: a[i], upd._samples)
+                ms, _ = evi.draw_linear_residual(lh, p, keys[i // 2], from_inverse=False, point_estimates=pe)
+                g = (x - p) + lh.left_sqrt_metric(p, lh.transformation(x) - lh.transformation(p))
+                gs.append(_flat(g, c))
+                mss.append((1.0 if i % 2 == 0 else -1.0) * _flat(ms, c))
+            out["geovi_g"], out["geovi_ms"] = np.array(gs), np.array(mss)
+            out["geovi_res"] = np.array([_flat(jax.tree_util.tree_map(lambda a: a[i], upd._samples), c) for i in range(len(upd))])
         return out
     return safe(go)
 
@@ -310,6 +323,13 @@ def oracle(case):
         return (f"point-estimated key {case['pe']} has non-zero residuals", dict(sig, what="point_estimate"))
     if not np.max(np.abs(full.mean(axis=0) - pos)) <= 1e-12 * max(1.0, np.max(np.abs(full))):
         return ("the average of the mirrored samples is not the expansion point", dict(sig, what="mean"))
+    if "geovi_g" in r:
+        g, ms = r["geovi_g"][:, keep], r["geovi_ms"][:, keep]
+        if not np.max(np.abs(g - ms)) <= 1e-6 * max(1.0, np.max(np.abs(ms))):
+            return (f"non-linear model: the geoVI samples do not solve x − e + L_e(t(x) − t(e)) = metric sample "
+                    f"(residual {np.max(np.abs(g - ms)):.3g})", dict(sig, what="geovi_equation"))
+        if frozen and np.any(r["geovi_res"][:, frozen] != 0):
+            return (f"point-estimated key {case['pe']} has non-zero geoVI residuals", dict(sig, what="point_estimate"))
     if "geovi" in r and not np.max(np.abs(r["geovi"] - res)) <= 1e-6 * max(1.0, np.max(np.abs(res))):
         return (f"linear model: the geoVI update moved the linear samples by {np.max(np.abs(r['geovi'] - res)):.3g}",
                 dict(sig, what="geovi"))
